@@ -134,8 +134,12 @@ struct Lists {
     cfg: Cfg,
 }
 
-fn prepare(c: &AstCase, obs: &mut Obs) -> Option<Lists> {
+fn prepare(c: &AstCase, obs: &mut Obs, which: Which) -> Option<Lists> {
     let r = astgen::render(&c.doc, &c.spell);
+    if let Err(why) = astgen::in_domain(&r, &opts(which).domain()) {
+        obs.excluded(why);
+        return None;
+    }
     let cfg = c.cfg.to_cfg(&c.spell);
     let tr = astgen::truth(&r, &c.cfg);
     if tr.undefined {
@@ -156,7 +160,7 @@ fn line_ranges(r: &Rendered, regs: &[Region]) -> Vec<(u64, u64, bool)> {
 // ---- C15 ----------------------------------------------------------------------------------------------------------
 
 pub fn oracle_c15(c: &AstCase, obs: &mut Obs) -> Verdict {
-    let Some(l) = prepare(c, obs) else { return Verdict::Pass };
+    let Some(l) = prepare(c, obs, Which::C15) else { return Verdict::Pass };
     let (r, tr, cfg) = (&l.r, &l.tr, &l.cfg);
     let exp = regions(r, tr, false);
     let js = match call_list(&r.src, cfg, false, true) {
@@ -267,7 +271,7 @@ pub fn oracle_c15(c: &AstCase, obs: &mut Obs) -> Verdict {
 // ---- C17 ----------------------------------------------------------------------------------------------------------
 
 pub fn oracle_c17(c: &AstCase, obs: &mut Obs) -> Verdict {
-    let Some(l) = prepare(c, obs) else { return Verdict::Pass };
+    let Some(l) = prepare(c, obs, Which::C17) else { return Verdict::Pass };
     let (r, tr, cfg) = (&l.r, &l.tr, &l.cfg);
     let exp_all = regions(r, tr, true);
     let exp_ready = regions(r, tr, false);
@@ -349,7 +353,7 @@ pub fn oracle_c17(c: &AstCase, obs: &mut Obs) -> Verdict {
 // ---- C16 ----------------------------------------------------------------------------------------------------------
 
 pub fn oracle_c16(c: &AstCase, obs: &mut Obs) -> Verdict {
-    let Some(l) = prepare(c, obs) else { return Verdict::Pass };
+    let Some(l) = prepare(c, obs, Which::C16) else { return Verdict::Pass };
     let (r, tr, cfg) = (&l.r, &l.tr, &l.cfg);
     let mut nt = false;
     for all in [false, true] {
@@ -446,6 +450,7 @@ pub fn check(ctx: &mut Ctx, id: &'static str) {
                 ctx.require_class(c);
             }
             ctx.random("ast-documents", 400, 250_000, 2_500_000, |t| gen(t, which), oracle_c15);
+            ctx.reshrink::<AstCase, _, _>("ast-documents", oracle_c15, crate::props::clean::shrink_ast);
         }
         Which::C16 => {
             ctx.rule = "cases = documents of the C15 space plus files whose first byte is a line break; list and list_all, pretty and JSON. Oracle: JSON parses into objects with exactly the keys line_range / annotated_code_block / current_status; every item's code block == an independent renderer written from the property text (`_start` line, numbered lines `{:7} |`, tabs as four spaces, `‾end` line, columns with tab = 4); pretty form minus colour codes == JSON block item by item; headers numbered 1..n with the right status; colour codes present. Non-trivial = a region not starting at column 0, containing a tab, or spanning >= 2 lines.".into();
@@ -453,6 +458,7 @@ pub fn check(ctx: &mut Ctx, id: &'static str) {
                 ctx.require_class(c);
             }
             ctx.random("ast-documents", 400, 200_000, 2_000_000, |t| gen(t, which), oracle_c16);
+            ctx.reshrink::<AstCase, _, _>("ast-documents", oracle_c16, crate::props::clean::shrink_ast);
         }
         Which::C17 => {
             ctx.rule = "cases = documents of the C15 space with pending / skip / unregistered / malformed-condition / un-unwrappable elements around and inside ready ones. Oracle: list_all JSON == by-construction sequence (first line, last line, status) in source order: every Ready region once, every region of a registered-but-not-ready element that is not inside a Ready region or a larger Pending region; Ready subsequence identical to list; pretty statuses agree. Non-trivial = >= 2 pending regions and >= 1 ready region.".into();
@@ -460,6 +466,7 @@ pub fn check(ctx: &mut Ctx, id: &'static str) {
                 ctx.require_class(c);
             }
             ctx.random("ast-documents", 400, 250_000, 2_500_000, |t| gen(t, which), oracle_c17);
+            ctx.reshrink::<AstCase, _, _>("ast-documents", oracle_c17, crate::props::clean::shrink_ast);
         }
     }
 }
